@@ -34,7 +34,8 @@ LEVEL = "exploration"
 RULE = ("token: generated phone strings (digit strings of length 1-20, and arbitrary unicode text without surrogates); "
         "encoding/encryption: generated parameter lists of 0-12 (name, value) pairs, names [a-z_]+, values str over full "
         "unicode, bytes over all byte values, or int (negative too); fresh recipient key pair per case; request classes: "
-        "generated phone/cc/mcc/mnc configs in a scratch profile. Non-trivial = some value needs an escape, contains a "
+        "generated phone/cc/mcc/mnc configs in a scratch profile, checked as built and as sent through WARequest.send() into a recording "
+        "HTTPS connection (the blob is opened with the private half of a key pair the harness substitutes for the server's). Non-trivial = some value needs an escape, contains a "
         "byte >= 0x80 or one of '-', '_', '~', '&', '=' (token cases: the number is not plain ASCII digits or is longer "
         "than 15). Distinct = distinct canonical JSON.")
 ASSUMPTIONS = [
@@ -240,9 +241,97 @@ def _request_case(case, out):
                 if tok != ref_token(local):
                     out.fail("request", "request:token_differs", {"got": tok.decode("latin-1"), "expected": ref_token(local).decode()})
         check_encoding(out, req.params)
+        if not out.violations:
+            _send_path(out, req, case)
     finally:
         envkit.drop_home(home)
     return out
+
+
+class _FakeResponse(object):
+    status = 200
+
+    def read(self):
+        return b'{"status": "fail", "reason": "incorrect"}'
+
+
+class _FakeConn(object):
+    calls = []
+
+    def __init__(self, host, port=None, *a, **kw):
+        self.host, self.port = host, port
+
+    def request(self, method, path, body=None, headers=None):
+        _FakeConn.calls.append((self.host, self.port, method, path, body, dict(headers or {})))
+
+    def getresponse(self):
+        return _FakeResponse()
+
+
+def _send_path(out, req, case):
+    """the request as it leaves through WARequest.send(): one GET whose query is ENC=<blob>; the blob, opened with the private key
+    that belongs to the public key the request class encrypts for (substituted by the harness), holds exactly the parameters of
+    the request, in order; host, path and User-Agent are those of the request"""
+    import base64
+    import urllib.parse
+    from yowsup.common.http import warequest as W
+    from yowsup.env import YowsupEnv
+    from axolotl.ecc.curve import Curve
+    from cryptography.hazmat.primitives.ciphers.aead import AESGCM
+    kp = Curve.generateKeyPair()
+    saved = (W.WARequest.ENC_PUBKEY, W.httplib.HTTPSConnection, W.httplib.HTTPConnection)
+    del _FakeConn.calls[:]
+    W.WARequest.ENC_PUBKEY = kp.publicKey
+    W.httplib.HTTPSConnection = _FakeConn
+    W.httplib.HTTPConnection = _FakeConn
+    try:
+        try:
+            req.send(encrypt=True)
+        except Exception as e:
+            out.fail("request", "request:send_raises:%s" % type(e).__name__, {"error": repr(e)[:300]})
+            return
+    finally:
+        W.WARequest.ENC_PUBKEY, W.httplib.HTTPSConnection, W.httplib.HTTPConnection = saved
+    out.label("request_sent")
+    # a code request for an account that already has an id asks /v2/exist first (answered "fail" here, so the code request follows)
+    if len(_FakeConn.calls) not in (1, 2):
+        out.fail("request", "request:http_requests_%d" % len(_FakeConn.calls), {})
+        return
+    if len(_FakeConn.calls) == 2:
+        out.label("exists_request_first")
+    params_sent = list(req.params)     # (send() may complete the parameters, e.g. with a freshly generated id)
+    host, port, method, path, body, headers = _FakeConn.calls[-1]
+    exp_host, exp_port, exp_path = req.getConnectionParameters()
+    if (host, port, method) != (exp_host, exp_port, "GET") or not path.startswith(exp_path + "?"):
+        out.fail("request", "request:wrong_endpoint", {"host": host, "port": port, "method": method, "path": path[:80]})
+        return
+    if headers.get("User-Agent") != YowsupEnv.getCurrent().getUserAgent():
+        out.fail("request", "request:user_agent_differs", {"got": headers.get("User-Agent")})
+        return
+    query = path[len(exp_path) + 1:]
+    pairs = query.split("&")
+    if len(pairs) != 1 or not pairs[0].startswith("ENC="):
+        out.fail("request", "request:query_is_not_one_enc_parameter", {"names": [p.split("=")[0] for p in pairs][:6]})
+        return
+    try:
+        blob = base64.b64decode(urllib.parse.unquote_to_bytes(pairs[0][4:]))
+        eph, ct = blob[:32], blob[32:]
+        from axolotl.ecc.djbec import DjbECPublicKey
+        shared = Curve.calculateAgreement(DjbECPublicKey(eph), kp.privateKey)
+        plain = AESGCM(bytes(shared)).decrypt(b"\x00" * 4 + b"\x00" * 8, bytes(ct), b"")
+    except Exception as e:
+        out.fail("request", "request:blob_does_not_open:%s" % type(e).__name__, {"error": repr(e)[:200]})
+        return
+    got = []
+    for part in plain.decode("ascii", "replace").split("&") if plain else []:
+        n, _, v = part.partition("=")
+        got.append((n, urllib.parse.unquote_to_bytes(v)))
+    exp = []
+    for n, v in params_sent:
+        exp.append((n, v if isinstance(v, bytes) else str(v).encode("utf-8")))
+    if got != exp:
+        out.fail("request", "request:sent_parameters_differ", {"got": [g[0] for g in got], "expected": [e[0] for e in exp],
+                                                               "first_difference": next((i for i, (a, b) in enumerate(zip(got, exp)) if a != b), min(len(got), len(exp)))})
 
 
 def nontrivial(case, out):
